@@ -10,6 +10,7 @@ import (
 	"errors"
 	"fmt"
 	"os"
+	"runtime/debug"
 	"sort"
 	"strings"
 	"sync"
@@ -123,11 +124,14 @@ type c9thread struct {
 	ret            chan error
 	status         string
 	step           int
+	released       bool
 }
 
-func isRefusal(err error) bool {
-	return err != nil && strings.Contains(err.Error(), "process already pending")
-}
+// A refusal is recognised by what it DOES, never by the wording of its error: Execute returns a non-nil error without
+// having registered anything for the session (no subscription handed out, nothing run). In the `race` and `stress`
+// scripts nothing else can make Execute return an error before its process runs (all timers are at 1 h, no failure
+// is scripted there), so there "returned an error before Run" is the refusal.
+func refusedBy(err error, subsDuring int) bool { return err != nil && subsDuring == 0 }
 
 var c9hookOnce sync.Once
 
@@ -150,6 +154,17 @@ const c9wait = 8 * time.Second
 //	enter (pass admission; if admitted, be driven into Run), finish (end the run by its outcome ok|fail|cancel).
 //	=> st=<I|Y|R|X|D per thread>;max=<sid=max concurrently running>;pend=<sid=0|1>;leak=<sid=live subs+streams, quiescent sids>
 func c9race(a []string) string {
+	if c9RegistriesUnsafe.Load() {
+		return c9skipped
+	}
+	defer func() {
+		if r := recover(); r != nil {
+			if os.Getenv("VERIF_DUMP") != "" {
+				fmt.Fprintln(os.Stderr, "PANIC:", r, string(debug.Stack()))
+			}
+			panic(r)
+		}
+	}()
 	c9installHook()
 	w := newC9World()
 	ths := []*c9thread{}
@@ -179,7 +194,7 @@ func c9race(a []string) string {
 				t.status = "Y"
 			case err := <-t.ret:
 				t.status = "E"
-				if isRefusal(err) {
+				if err != nil {
 					t.status = "X"
 				}
 			case <-time.After(c9wait):
@@ -187,6 +202,7 @@ func c9race(a []string) string {
 			}
 		case t.step == 2 && t.status == "Y":
 			close(t.release)
+			t.released = true
 			deadline := time.Now().Add(c9wait)
 			last := time.Time{}
 		loop:
@@ -194,7 +210,7 @@ func c9race(a []string) string {
 				select {
 				case err := <-t.ret:
 					t.status = "E"
-					if isRefusal(err) {
+					if err != nil {
 						t.status = "X"
 					}
 					break loop
@@ -259,7 +275,7 @@ func c9race(a []string) string {
 	out := "st=" + strings.Join(st, ",") + ";max=" + w.stats.maxima(keys) + ";pend=" + joinOr(pend, ",") + ";leak=" + joinOr(leak, ",")
 	// tear down: let everything return
 	for _, t := range ths {
-		if t.step >= 1 && t.status == "Y" {
+		if t.step >= 1 && t.status == "Y" && !t.released {
 			close(t.release)
 		}
 		t.cancel()
@@ -286,6 +302,9 @@ func c9race(a []string) string {
 //	second attempt, scripted by  elected (self | other | any) : end (ok | fail | cancel | idle | silent)
 //	=> per session ret/sub/unsub/close/live/streams/open/runs/stops/pend/elive/estreams  joined by ','
 func c9sess(a []string) string {
+	if c9RegistriesUnsafe.Load() {
+		return c9skipped
+	}
 	c9installHook()
 	w := newC9World()
 	outs := []string{}
@@ -478,6 +497,29 @@ func (w *c9world) session(name, role string, np int, oc, second string) string {
 	case "cancel":
 		okFlow = waitUntil(c9wait, subscribed)
 		cancel()
+	case "slowdial":
+		// the coordinator asks who is ready; this relayer's ready reply needs a stream to the coordinator and the dial is
+		// slow (NewStream is held at a gate); the caller gives the session up meanwhile; then the dial completes.
+		// Whenever Execute returns, the reply's stream must not be left registered or open afterwards.
+		gate := &closeGate{in: make(chan struct{}, 4), out: make(chan struct{})}
+		w.self.setDialGate(map[peer.ID]*closeGate{w.ids[1]: gate})
+		opened0 := w.self.opened()
+		okFlow = waitUntil(c9wait, subscribed)
+		_ = w.ghost.inner.Broadcast(peer.IDSlice{w.ids[0]}, []byte{}, comm.TssInitiateMsg, sid)
+		select {
+		case <-gate.in:
+		case <-time.After(c9wait):
+			okFlow = false
+		}
+		cancel()
+		select { // (a session whose reply is sent inline is still inside the dial and cannot return yet)
+		case <-returned:
+		case <-time.After(60 * time.Millisecond):
+		}
+		w.self.setDialGate(nil)
+		close(gate.out)
+		okFlow = okFlow && waitUntil(c9wait, isReturned) && waitUntil(c9wait, func() bool { return w.self.opened() > opened0 })
+		time.Sleep(20 * time.Millisecond) // let a send that outlived the session register its stream
 	case "precancel": // (cancelled before Execute was entered, see below)
 	case "badstart":
 		okFlow = waitUntil(c9wait, subscribed)
@@ -553,7 +595,7 @@ func (w *c9world) session(name, role string, np int, oc, second string) string {
 		switch {
 		case err == nil:
 			r = "ok"
-		case isRefusal(err):
+		case refusedBy(err, subsNow()):
 			r = "refused"
 		default:
 			r = "err"
@@ -594,6 +636,9 @@ func (w *c9world) session(name, role string, np int, oc, second string) string {
 //	hook lets everybody through). The admitted session(s) stay alive until every other request has returned.
 //	=> admitted=<k>,refused=<n-k>   (under -race this is also what exposes unsynchronised accesses)
 func c9stress(a []string) string {
+	if c9RegistriesUnsafe.Load() {
+		return c9skipped
+	}
 	c9installHook()
 	n := int(u64(a[0]))
 	w := newC9World()
@@ -615,7 +660,7 @@ collect:
 	for refused+other < n-1 {
 		select {
 		case err := <-rets:
-			if isRefusal(err) {
+			if err != nil {
 				refused++
 			} else {
 				other++
@@ -784,6 +829,8 @@ func genC09(g *G) {
 	}
 	g.Emit("sess", "d:P:2:comm>selfA3:ok,d:P:1:comm>selfA1:fail,d:c:1:ok")
 	g.Emit("sess", "a:p:1:gtorun,a:c:2:ok")
+	g.Emit("sess", "a:p:1:slowdial,a:p:1:ok")
+	g.Emit("sess", "b:P:2:slowdial,a:p:1:slowdial,b:c:1:ok")
 	g.Emit("sess", "a:p:2:gtorunforeign,a:p:1:ok")
 	g.Emit("sess", "a:P:1:gtoforeign,a:P:1:ok")
 	if g.Thorough() {
